@@ -257,6 +257,24 @@ def disconnect_record(ctx: Ctx, rule: str):
                  "reconnect timer of a persistent peer never starts")
     elif not all("time" in ast.unparse(n.ast.value) for n in ld):
         ctx.fail("remove_peer_connection:last_disconnect", g.loc(ld[0]), "last_disconnect is not a time stamp")
+    # the disconnect time (the start of the reconnect wait) is stamped only when the removed
+    # connection IS the peer's connection: one that never was (an inbound connection naming the
+    # peer and refused, removed while Peer.connection is None) must not restart the wait
+    from ..atoms import must_facts as _mf
+    ctx.inst("remove_peer_connection:last_disconnect#own-connection-only")
+    owner = [a.arg for a in rem.node.args.args][1]
+    for n in ld:
+        recv = ast.unparse([t for t in n.stores() if isinstance(t, ast.Attribute)][0].value)
+        fx = _mf(g, at, n)
+        own = any((f_[0] == f"{recv}.connection" and f_[1] == "is-expr" and f_[2] == owner and f_[3] is True)
+                  or (f_[1] == "==x" and {f_[0], f_[2]} == {f"{recv}.connection", owner} and f_[3] is True)
+                  for f_ in fx)
+        if not own:
+            ctx.fail("remove_peer_connection:last_disconnect#own-connection-only", g.loc(n),
+                     f"`{n.text(60)}` runs without `{recv}.connection is {owner}` being established: "
+                     f"removing a connection that never was the peer's own (Peer.connection None: a "
+                     f"refused inbound connection naming the peer) restarts the reconnect wait of "
+                     f"the lost persistent peer, for as long as such connections keep coming")
     ctx.inst("remove_peer_connection:disconnect_reason")
     rparams = [a.arg for a in rem.node.args.args]
     ok = False
@@ -460,6 +478,27 @@ def route_answer_discipline(ctx: Ctx, rule: str):
                                  f"request is routed and transmitted", rule=rule,
                                  expected="the table of a connection is created empty once and then "
                                           "only modified in place", observed=ast.unparse(x.value)[:80])
+    # ... and when it does fail - the connection was removed, or another thread answered the
+    # same request, since the search - the caller sees the documented NotRoutable, not KeyError
+    cons_k = "route_answer:removal-failure-is-NotRoutable"
+    want_error_type = rule.startswith("C09")      # the error's type is C09's clause only
+    if want_error_type:
+        ctx.inst(cons_k, rule=rule)
+    for d in dels:
+        if not d.deletes() or not want_error_type:
+            continue
+        tries = [x for x in d.lexical if isinstance(x, ast.Try)]
+        conv = any(any(h.type is not None and "KeyError" in ast.unparse(h.type)
+                       and any(isinstance(y, ast.Raise) and y.exc is not None and "NotRoutable" in ast.unparse(y.exc)
+                               for y in ast.walk(h)) for h in t.handlers) for t in tries)
+        locked_ = any(isinstance(w, ast.With) and any("lock" in ast.unparse(i.context_expr).lower()
+                                                      for i in w.items) for w in d.lexical)
+        if not conv and not locked_:
+            ctx.fail(cons_k, g.loc(d), f"`{d.text(80)}` raises KeyError when the record has vanished since "
+                     f"the search (the node thread removed the connection, a second thread answered "
+                     f"the same request): Application.send_answer fails with a bare KeyError instead "
+                     f"of the not-routable error", rule=rule,
+                     expected="try: del ... except KeyError: raise NotRoutable(...)")
     # the removal is the atomic test-and-remove: it fails when the record is already gone
     cons_a = "route_answer:removal-is-exclusive"
     ctx.inst(cons_a, rule=rule)
@@ -1521,3 +1560,262 @@ def realm_key_case(ctx: Ctx, rule: str):
                  f"letter (in the configuration or in a Destination-Realm) is filed under one key and "
                  f"looked up under another - its requests are answered 3003 / cannot be routed",
                  rule=rule, expected="one normalisation at every site", observed=str(raw[:4]))
+
+
+def stat_counters_synchronised(ctx: Ctx, rule: str):
+    """SecondSlotCounter objects are incremented on connection and application threads (every
+    sent answer goes through add_count, after the answer has been queued) and read by the
+    statistics thread: every access to the slot table is made under the counter's own lock.
+    Unlocked, two threads pruning the same slot raise KeyError (after an answer has been queued:
+    the request is answered again by the error handler unless it is guarded), and the statistics
+    thread iterating the table while it is resized raises RuntimeError."""
+    from ..srcmodel import AnalysisError
+    model = ctx.model
+    ci = model.cls("node._helpers", "SecondSlotCounter")
+    ctx.rule(rule, "SecondSlotCounter: every access to the slot table holds the counter's lock",
+             floor=3)
+    init = ci.methods.get("__init__")
+    locks = set()
+    table = None
+    for n in ast.walk(init.node) if init else []:
+        if isinstance(n, (ast.Assign, ast.AnnAssign)) and n.value is not None:
+            for t in A.store_targets(n):
+                if isinstance(t, ast.Attribute) and A.dotted(t.value) == "self":
+                    if isinstance(n.value, ast.Call) and A.call_name(n.value) in (
+                            "threading.Lock", "threading.RLock", "Lock", "RLock"):
+                        locks.add(t.attr)
+                    elif isinstance(n.value, (ast.Dict, ast.Call)) and t.attr.startswith("_slots"):
+                        table = t.attr
+    if table is None:
+        raise AnalysisError("SecondSlotCounter has no slot table")
+    for f in ci.all_funcs:
+        if f.name == "__init__":
+            continue
+        par = A.parents(f.node)
+        acc = [n for n in A.walk_no_nested(f.node) if isinstance(n, ast.Attribute) and n.attr == table
+               and A.dotted(n.value) == "self"]
+        if not acc:
+            continue
+        cons = f"SecondSlotCounter.{f.name}:{table}-under-lock"
+        ctx.inst(cons, rule=rule)
+        for a in acc:
+            x, held = a, False
+            while x in par:
+                x = par[x]
+                if isinstance(x, ast.With) and any(
+                        isinstance(i.context_expr, ast.Attribute) and i.context_expr.attr in locks
+                        and A.dotted(i.context_expr.value) == "self" for i in x.items):
+                    held = True
+                    break
+            if not held:
+                ctx.fail(cons, f.loc(a), f"SecondSlotCounter.{f.name} touches self.{table} without holding "
+                         f"the counter's lock{' (the class has none)' if not locks else ''}: counters are "
+                         f"incremented from connection and application threads and read by the "
+                         f"statistics thread - concurrent pruning raises KeyError in add_count (after "
+                         f"an answer has been queued), iteration during a resize raises RuntimeError "
+                         f"in the statistics thread", rule=rule)
+                break
+
+
+def close_is_thread_tolerant(ctx: Ctx, rule: str):
+    """close_connection_socket / remove_peer_connection run on the node thread (peer hung up,
+    write failure, timers) AND on connection threads (receive_cea rejecting, a handler closing):
+    both can be in there for the same connection at the same moment.  The socket is therefore
+    taken out of the table atomically before it is touched (one thread gets it), and the table
+    removals tolerate an entry that is gone already - or everything happens under a lock.  A
+    second setsockopt()/close() on the closed socket raises OSError(EBADF) and a check-then-delete
+    raises KeyError, either of which ends the I/O thread when it is the one that loses."""
+    from ..srcmodel import AnalysisError
+    model = ctx.model
+    nc = model.cls("node.node", "Node")
+    cl = nc.methods.get("close_connection_socket")
+    rm = nc.methods.get("remove_peer_connection")
+    if cl is None or rm is None:
+        raise AnalysisError("close_connection_socket / remove_peer_connection not found")
+    ctx.use(cl, rm)
+    ctx.rule(rule, "closing and removing a connection tolerate two threads doing it at once", floor=2)
+
+    def locked(fn, node):
+        par = A.parents(fn.node)
+        x = node
+        while x in par:
+            x = par[x]
+            if isinstance(x, ast.With) and any("lock" in ast.unparse(i.context_expr).lower() for i in x.items):
+                return True
+        return False
+    cons = "close_connection_socket:socket-taken-once"
+    ctx.inst(cons, rule=rule)
+    conn = [a.arg for a in cl.node.args.args][1]
+    sock_ops = [n for n in A.walk_no_nested(cl.node) if isinstance(n, ast.Call) and isinstance(n.func, ast.Attribute)
+                and n.func.attr in ("setsockopt", "close", "shutdown") and isinstance(n.func.value, ast.Name)
+                and n.func.value.id != conn]
+    for op in sock_ops:
+        var = op.func.value.id
+        defs = [n.value for n in A.walk_no_nested(cl.node) if isinstance(n, ast.Assign)
+                and any(isinstance(t, ast.Name) and t.id == var for t in n.targets)]
+        atomic = defs and all(isinstance(d, ast.Call) and isinstance(d.func, ast.Attribute) and d.func.attr == "pop"
+                              and A.dotted(d.func.value) == "self.peer_sockets" for d in defs)
+        if not atomic and not locked(cl, op):
+            ctx.fail(cons, cl.loc(op), f"`{ast.unparse(op)[:60]}` works on a socket that was looked up "
+                     f"(`{ast.unparse(defs[0])[:50] if defs else '?'}`) but not taken out of the table: "
+                     f"two threads closing the same connection both get it, and the second call on "
+                     f"the closed socket raises OSError(EBADF) - uncaught in the I/O thread, which ends",
+                     rule=rule, expected="socket = self.peer_sockets.pop(ident, None), or a lock around the close")
+            break
+    cons = "remove_peer_connection:tolerant-removals"
+    ctx.inst(cons, rule=rule)
+    for n in A.walk_no_nested(rm.node):
+        if isinstance(n, ast.Delete) and any(isinstance(t, ast.Subscript) and A.dotted(t.value).startswith("self.")
+                                             for t in n.targets) and not locked(rm, n):
+            t = [t for t in n.targets if isinstance(t, ast.Subscript)][0]
+            ctx.fail(cons, rm.loc(n), f"`{ast.unparse(n)}` in remove_peer_connection is a check-then-delete "
+                     f"that is not atomic: when two threads remove the same connection the second "
+                     f"`del` raises KeyError (uncaught in the I/O thread, which ends)", rule=rule,
+                     expected=f"{A.dotted(t.value)}.pop(key, None), or a lock around the removal")
+            break
+
+
+def routed_record_rechecked(ctx: Ctx, rule: str):
+    """route_request files the record request -> application AFTER it has chosen the connection;
+    remove_peer_connection sweeps the table of a removed connection's records exactly once.  A
+    connection removed in between leaves a record that nothing will ever delete, unless
+    route_request looks again after filing (the removal deletes from `connections` before it
+    sweeps) and takes the record back - or filing and sweeping share a lock."""
+    from ..atoms import Atomizer, must_facts
+    from ..srcmodel import AnalysisError
+    model = ctx.model
+    nc = model.cls("node.node", "Node")
+    f = nc.methods.get("route_request")
+    if f is None:
+        raise AnalysisError("Node.route_request not found")
+    ctx.use(f)
+    ctx.rule(rule, "the record filed by route_request cannot outlive a connection removed while the "
+                   "request was being routed", floor=1)
+    g = cfg_of(f)
+    at = Atomizer(model, f.module, nc)
+    stores = [n for n in g.nodes if n.kind == "stmt" and isinstance(n.ast, ast.Assign) and any(
+        isinstance(t, ast.Subscript) and A.dotted(t.value) == "self._app_waiting_answer" for t in n.ast.targets)]
+    cons = "route_request:record-rechecked"
+    ctx.inst(cons, rule=rule)
+    if not stores:
+        raise AnalysisError("route_request does not file into _app_waiting_answer")
+    st = stores[0]
+    locked = any(isinstance(w, ast.With) and any("lock" in ast.unparse(i.context_expr).lower() for i in w.items)
+                 for w in st.lexical)
+    after = g.reach([d for l, d in st.succ if l not in ("exc", "raise")])
+    key = A.dotted([t for t in st.ast.targets if isinstance(t, ast.Subscript)][0].slice)
+    takes_back = [n for n in after if n.kind == "stmt" and any(
+        isinstance(c.func, ast.Attribute) and c.func.attr == "pop" and A.dotted(c.func.value) == "self._app_waiting_answer"
+        and c.args and A.dotted(c.args[0]) == key for c in n.calls())
+        and any(f_[1] == "in-expr" and f_[2] == "self.connections" and f_[3] is False
+                for f_ in must_facts(g, at, n))]
+    if not takes_back and not locked:
+        ctx.fail(cons, g.loc(st), f"`{st.text(70)}` files the record after the connection was chosen and "
+                 f"never looks again: when the connection is removed in between, the sweep of "
+                 f"remove_peer_connection has already run and the record stays in "
+                 f"_app_waiting_answer for ever (one per such connection loss)", rule=rule,
+                 expected="after filing: `if conn.ident not in self.connections: pop the record, raise "
+                          "NotRoutable` (or one lock for filing and sweeping)")
+
+
+def wakeup_pipe_cannot_block(ctx: Ctx, rule: str):
+    """The node's I/O thread is the only reader of the wake-up pipe, and it writes to it as well
+    (demand_attention when it dials a peer, close() after a failed write).  A blocking write on a
+    full pipe (every queued message of every connection adds a token) therefore deadlocks the
+    node for good.  Either the write end is non-blocking and the writer tolerates a full pipe,
+    or nothing reachable from the I/O thread writes to the pipe."""
+    from ..srcmodel import AnalysisError
+    from ..effects import effects_of
+    model = ctx.model
+    nc = model.cls("node.node", "Node")
+    pc = model.cls("node.peer", "PeerConnection")
+    da = pc.methods.get("demand_attention")
+    hc = nc.methods.get("_handle_connections")
+    init = nc.methods.get("__init__")
+    if da is None or hc is None or init is None:
+        raise AnalysisError("demand_attention / _handle_connections / Node.__init__ not found")
+    ctx.use(da, hc)
+    ctx.rule(rule, "the I/O thread cannot block on its own wake-up pipe", floor=1)
+    cons = "self-pipe:writer-cannot-block"
+    E = effects_of(model)
+    reach = E.reachable_funcs([hc])
+    io_writes = any(g_ is da for g_ in reach)
+    nonblock = any(isinstance(n, ast.Call) and A.call_name(n) in ("os.set_blocking",) and len(n.args) == 2
+                   and isinstance(n.args[1], ast.Constant) and n.args[1].value is False
+                   for n in ast.walk(init.node)) or \
+        any(isinstance(n, ast.Call) and A.call_name(n) in ("os.pipe2",) and "O_NONBLOCK" in ast.unparse(n)
+            for n in ast.walk(init.node))
+    tolerant = False
+    for t in ast.walk(da.node):
+        if isinstance(t, ast.Try) and any(isinstance(c, ast.Call) and A.call_name(c) == "os.write" for b in t.body
+                                          for c in ast.walk(b)):
+            tolerant = any(h.type is None or any(k in ast.unparse(h.type) for k in
+                                                 ("BlockingIOError", "OSError", "Exception")) for h in t.handlers)
+    ctx.inst(cons, rule=rule, sample={"io_thread_reaches_writer": io_writes, "write_end_non_blocking": nonblock,
+                                      "writer_tolerates_full_pipe": tolerant})
+    if io_writes and not (nonblock and tolerant):
+        ctx.fail(cons, da.loc(), "PeerConnection.demand_attention is reachable from the I/O thread "
+                 "(_connect_to_peer on every re-dial, conn.close() after a failed write) and writes to "
+                 "the wake-up pipe with a blocking os.write: once the pipe is full (one token per "
+                 "queued message, one token taken per round) the I/O thread blocks on a pipe only it "
+                 "reads - nothing is read, written, accepted, timed out or dialled any more",
+                 rule=rule, expected="os.set_blocking(write_end, False) and BlockingIOError tolerated "
+                                     "by the writer", observed=f"non-blocking={nonblock}, tolerant={tolerant}")
+
+
+def ready_substate_transitions_atomic(ctx: Ctx, rule: str):
+    """PeerConnection.state is written from several thread contexts (the node loop's timers send
+    the DWR, the connection's reader handles DWA / DPR / DPA, stop() sends DPRs).  A method that
+    tests the state and then stores a ready sub-state must do both in one atomic step (a lock
+    shared with the other writers): otherwise a DPR handled between the test and the store is
+    overwritten, and the connection is offered for routing - and accepts application answers -
+    after its DPA."""
+    from ..effects import fault_effects_of
+    from ..srcmodel import AnalysisError
+    from ..atoms import Atomizer, must_facts
+    from .c14 import _contexts
+    model = ctx.model
+    pc = model.cls("node.peer", "PeerConnection")
+    peer_mod = model.module("node.peer")
+    READY = frozenset(model.fold_name(peer_mod, "PEER_READY_STATES"))
+    ctx.rule(rule, "a method of PeerConnection that tests the state and then stores a ready sub-state "
+                   "does so atomically with respect to the other threads that write the state", floor=2)
+    cx = _contexts(model, fault_effects_of(model))
+    # thread contexts in which <x>.state is stored anywhere in the node package
+    writers: dict[str, set[str]] = {}
+    for f in model.all_funcs():
+        if ".node" not in f.module.name or f.name == "__init__":
+            continue
+        for n in A.walk_no_nested(f.node):
+            if isinstance(n, ast.Assign) and any(isinstance(t, ast.Attribute) and t.attr == "state" for t in n.targets):
+                writers.setdefault(f.qualname, set()).update(cx.get(id(f.node), set()))
+    for m in pc.all_funcs:
+        if m.name == "__init__":
+            continue
+        g = cfg_of(m)
+        at = Atomizer(model, m.module, pc)
+        for n in g.nodes:
+            if n.kind != "stmt" or not isinstance(n.ast, ast.Assign) \
+                    or not any(A.dotted(t) == "self.state" for t in n.ast.targets):
+                continue
+            v = model.try_fold(n.ast.value, m.module, pc)
+            if v not in READY:
+                continue
+            fx = must_facts(g, at, n)
+            tested = any(f_[0] == "self.state" for f_ in fx)
+            if not tested:
+                continue
+            cons = f"PeerConnection.{m.name}:state-check-then-set"
+            own = cx.get(id(m.node), set())
+            others = {q: c - own for q, c in writers.items() if q != m.qualname and (c - own)}
+            locked = any(isinstance(w, ast.With) and any("lock" in ast.unparse(i.context_expr).lower()
+                                                         for i in w.items) for w in n.lexical)
+            ctx.inst(cons, rule=rule, sample={"runs_in": sorted(own), "other_writers": {q: sorted(c) for q, c in list(others.items())[:4]}})
+            if others and not locked:
+                q0 = sorted(others)[0]
+                ctx.fail(cons, g.loc(n), f"PeerConnection.{m.name} (thread contexts {sorted(own)}) tests "
+                         f"self.state and then stores `{ast.unparse(n.ast.value)}` without a lock, while "
+                         f"{q0} stores the state in {sorted(others[q0])}: a DPR (or a stop()) handled "
+                         f"between the test and the store is overwritten - the connection is ready again "
+                         f"after its DPA, is offered for routing and accepts application answers",
+                         rule=rule, expected="one lock around test and store, shared by every writer of the state")
